@@ -10,7 +10,7 @@ from ..session import Outcome
 from . import PropBase, steps_with_ids
 
 FAULTS = ("clear", "shrink", "twin", "clear_typing", "deep", "reject")
-STRUCT_OPS = ("drop_field", "rename_field", "retype", "remove_elem", "add_elem", "dup_elem", "reorder", "wrap", "unwrap", "graft", "add_key", "attr_name")
+STRUCT_OPS = ("drop_field", "rename_field", "retype", "remove_elem", "add_elem", "dup_elem", "reorder", "wrap", "unwrap", "graft", "add_key", "attr_name", "pad")
 BYTE_OPS = ("truncate", "dup_span", "flip_byte")
 
 
@@ -56,6 +56,8 @@ def corrupt(rng, wire, graft_pool):
         ops = ["retype", "wrap", "graft"]
         if not isinstance(node, dict):
             ops += ["attr_name"]  # a scalar replaced by text that names an attribute every class has (never a value of it)
+        if isinstance(node, str):
+            ops += ["pad", "pad"]  # blanks or a newline around the text: other text (a Literal or Enum lists exact members)
         if isinstance(node, dict) and "$dict" in node:
             ops += ["add_key", "add_key"]
             if node["$dict"]:
@@ -87,6 +89,9 @@ def corrupt(rng, wire, graft_pool):
             node["$list"].insert(i, copy.deepcopy(node["$list"][i]))
         elif op == "retype":
             w = _set(w, path, hist.junk(rng))
+        elif op == "pad":
+            padded = rng.choice([" ", "\n", "\t", ""]) + node + rng.choice(["\n", " ", "\r\n", "  "])
+            w = _set(w, path, padded if rng.random() < 0.7 else {"$b": padded.encode().hex()})
         elif op == "attr_name":
             name = rng.choice(ATTR_NAMES)
             w = _set(w, path, name if rng.random() < 0.7 else {"$b": name.encode().hex()})
